@@ -131,6 +131,7 @@ type genOpts struct {
 	maxPieces     int
 	maxDepth      int
 	noPartials    bool
+	noContent     bool // no contentFor / contentOf (filler of a page and a layout that share one context: a block the one stores would be found by the other)
 	sideEffects   bool // C13: side-effecting hash values etc. (po/pv logging is always on)
 }
 
@@ -1608,7 +1609,7 @@ func (g *gen) builtinBlockPiece(depth int) {
 }
 
 func (g *gen) contentPiece(depth int) {
-	if g.inFor > 0 || g.inFn > 0 {
+	if g.inFor > 0 || g.inFn > 0 || g.o.noContent {
 		g.builtinBlockPiece(depth)
 		return
 	}
